@@ -13,10 +13,11 @@ out = ["# Seeded property-breaking changes", "",
        "confirmed in a scratch worktree (repo suite unchanged: 196 passed + the 2 known failures; demo exits 0 without / 1 with the change).",
        f"{len(missed)} were missed (or produced a harness error) by the quick tier as it was when the change was first evaluated and led to a general strengthening of the check; "
        f"{len(pre)} more were evaluated only after the check had been strengthened on reading the seeding agent's report.",
-       "All are reported by the current quick tier of their property (at the base commit given in meta.json where the patch no longer applies to HEAD).", "",
+       "All are reported by the current quick tier of their property (at the base commit given in meta.json where the patch no longer applies to HEAD), "
+       "except the ones marked OTHER CHECK: these break their property through a mechanism that belongs to another listed property and are reported by that property's check.", "",
        "| seed | first evaluation | detecting classes / what was changed |", "|---|---|---|"]
 for m in rows:
-    first = "MISSED" if "initially MISSED" in m["detection"] or "initially a HARNESS" in m["detection"] or "missed first" in m["detection"].lower() else ("not measured" if "before the first evaluation" in m["detection"] else "caught")
+    first = f"OTHER CHECK ({m['detected_by_check_of']})" if m.get("detected_by_check_of") and m["detected_by_check_of"] != m["property"] else "MISSED" if "initially MISSED" in m["detection"] or "initially a HARNESS" in m["detection"] or "missed first" in m["detection"].lower() else ("not measured" if "before the first evaluation" in m["detection"] else "caught")
     out.append(f"| {m['seed']} | {first} | {m['detection'].replace('|', '/')} |")
 open(os.path.join(ROOT, "seeded", "README.md"), "w").write("\n".join(out) + "\n")
 print(len(rows), len(missed), len(pre))
